@@ -325,10 +325,16 @@ def judge_case(ctx, res, pid="C08"):
         ctx.nontriv({"schema": schema, "ops": wit["ops"]})
 
 
-def scale_case(cid, rng, schema, n_tracks=160):
+def scale_case(cid, rng, schema, n_tracks=160, huge_ids=False):
     """Many tracks in two crates: bulk adds in scrambled order, removal of every other entry, removal of tracks
     from the database, re-adds; judged once at the end against sets (and insertion order on 2.x)."""
     ops = [{"op": "create_temporary", "schema": schema}]
+    if huge_ids and is_v2(schema):
+        # ids beyond 32 bits: the AUTOINCREMENT counters are advanced as a foreign writer with a long history would leave them
+        ops.append({"op": "create_track", "as": "tseed", "snap": {"relative_path": FO.hx("bulk/seed.mp3")}})
+        ops.append({"op": "create_root_crate", "name": FO.hx("seed"), "as": "cseed"})
+        ops.append({"op": "add_track", "c": "cseed", "t": "tseed"})
+        ops.append({"op": "raw_exec", "sql": "UPDATE sqlite_sequence SET seq = 4294967301 WHERE name IN ('Track', 'Playlist', 'PlaylistEntity')"})
     for i in range(n_tracks):
         ops.append({"op": "create_track", "as": "t%d" % i, "snap": {"relative_path": FO.hx("bulk/track %04d.mp3" % i)}})
     ops.append({"op": "create_root_crate", "name": FO.hx("A"), "as": "cA"})
@@ -375,11 +381,14 @@ def judge_scale(ctx, res):
     evs = res.events
     ids = {}
     for k, op in enumerate(case["ops"]):
-        if op["op"] == "create_track" and "ret" in evs[k]:
+        if op["op"] == "create_track" and "ret" in evs[k] and op["as"][1:].isdigit():
             ids[int(op["as"][1:])] = evs[k]["ret"]
         if "exc" in evs[k] and op["op"] not in ("crate_query", "db_query"):
             ctx.violation(f"bulk-op-throws {fam} {op['op']}", f"{schema}: {op['op']} threw {evs[k]['exc']['type']} in the bulk case", wit)
             return
+    if ids:
+        ctx.extra["scale_max_track_id_seen"] = max(ctx.extra.get("scale_max_track_id_seen", 0), max(ids.values()))
+        ctx.extra["scale_max_tracks_in_one_crate"] = max(ctx.extra.get("scale_max_tracks_in_one_crate", 0), len(sc["A"]), len(sc["B"]))
     gotA, gotB, live = evs[sc["tail"]].get("ret"), evs[sc["tail"] + 1].get("ret"), evs[sc["tail"] + 2].get("ret")
     wantA = [ids[i] for i in sc["A"]]
     wantB = [ids[i] for i in sc["B"]]
@@ -394,7 +403,7 @@ def judge_scale(ctx, res):
             ctx.violation(f"membership-mismatch {fam} scale", f"{schema}: crate {name} of {len(want)} tracks: unexpected {extra}, missing {missing}", wit)
         elif is_v2(schema) and list(got) != want:
             ctx.violation(f"entry-order {fam} scale", f"{schema}: crate {name} does not list its {len(want)} entries in insertion order", wit)
-    if live is not None and set(live) != {ids[i] for i in range(sc["n"]) if i not in sc["gone"]}:
+    if live is not None and set(live) - {x for x in live if x not in ids.values()} != {ids[i] for i in range(sc["n"]) if i not in sc["gone"]}:
         ctx.violation(f"track-listing-mismatch {fam} scale", f"{schema}: tracks() has {len(live)} entries", wit)
 
 
@@ -413,8 +422,11 @@ def run(ctx):
                         "containing_crates() is judged on 1.x only; 2.x reports 'not yet implemented' (\"where supported\")",
                         "a call on a removed handle ends the case (out of contract)"]
     for schema in ALL_SCHEMAS:
-        cases.append(scale_case("sc%d" % n, ctx.rng, schema, 160 if ctx.tier == "quick" else 600))
+        cases.append(scale_case("sc%d" % n, ctx.rng, schema, 1100 if ctx.tier == "quick" else 2500))
         n += 1
+        if is_v2(schema):
+            cases.append(scale_case("sh%d" % n, ctx.rng, schema, 40, huge_ids=True))
+            n += 1
     runner.run_cases(cases, cfg="plain", on_result=lambda r: judge_scale(ctx, r) if r.case.get("_scale") else judge_case(ctx, r))
     seen = set(ctx.extra.get("cases_by_schema", {}))
     if seen != set(ALL_SCHEMAS):
